@@ -147,6 +147,11 @@ func (w *World) peerByID(id peer.ID) *Peer {
 	return nil
 }
 
+// live reports whether a subscription is still in use (world lock held).
+func (s *topicSub) live() bool {
+	return s != nil && !s.closed && (s.ctx == nil || s.ctx.Err() == nil)
+}
+
 func lk(a, b string) [2]string {
 	if a > b {
 		a, b = b, a
@@ -198,8 +203,8 @@ func (w *World) notifyLocked(a, b, kind string) {
 		return
 	}
 	topics := []string{}
-	for t := range pa.subs {
-		if _, ok := pb.subs[t]; ok {
+	for t, sa := range pa.subs {
+		if sb := pb.subs[t]; sa.live() && sb.live() {
 			topics = append(topics, t)
 		}
 	}
@@ -260,7 +265,7 @@ func (w *World) Deliver(m *Msg) bool {
 	switch m.Kind {
 	case "pub":
 		s := p.subs[m.Topic]
-		if s == nil || s.msgs == nil || s.closed {
+		if !s.live() || s.msgs == nil {
 			w.mu.Unlock()
 			return false
 		}
@@ -271,7 +276,7 @@ func (w *World) Deliver(m *Msg) bool {
 		return true
 	case "join", "leave":
 		s := p.subs[m.Topic]
-		if s == nil || s.peers == nil || s.closed {
+		if !s.live() || s.peers == nil {
 			w.mu.Unlock()
 			return false
 		}
@@ -546,6 +551,24 @@ type topicSub struct {
 	peers  chan events.Event
 	closed bool
 	refs   int
+	ctx    context.Context // the subscription lives as long as this context (the store's)
+}
+
+// closeLocked ends the subscription (world lock held).
+func (s *topicSub) closeLocked(p *Peer, topic string) {
+	if s.closed {
+		return
+	}
+	s.closed = true
+	if s.peers != nil {
+		close(s.peers)
+	}
+	if s.msgs != nil {
+		close(s.msgs)
+	}
+	if p.subs[topic] == s {
+		delete(p.subs, topic)
+	}
 }
 
 type simPubSub struct{ p *Peer }
@@ -566,6 +589,11 @@ func (t *simTopic) Topic() string { return t.topic }
 
 func (t *simTopic) sub() *topicSub {
 	s := t.p.subs[t.topic]
+	// a subscription whose store has been closed is over, whether or not the goroutine that
+	// watches its context has run yet: a store opened afterwards gets a fresh subscription
+	if s != nil && !s.closed && s.ctx != nil && s.ctx.Err() != nil {
+		s.closeLocked(t.p, t.topic)
+	}
 	if s == nil || s.closed {
 		s = &topicSub{}
 		t.p.subs[t.topic] = s
@@ -583,7 +611,7 @@ func (t *simTopic) Publish(_ context.Context, message []byte) error {
 		if q == t.p || !w.linkedLocked(t.p.Name, n) {
 			continue
 		}
-		if s := q.subs[t.topic]; s != nil && !s.closed {
+		if s := q.subs[t.topic]; s.live() {
 			w.addMsgLocked(&Msg{Kind: "pub", Topic: t.topic, From: t.p.Name, To: n, Payload: message})
 		}
 	}
@@ -600,7 +628,7 @@ func (t *simTopic) Peers(context.Context) ([]peer.ID, error) {
 		if q == t.p || !w.linkedLocked(t.p.Name, n) {
 			continue
 		}
-		if s := q.subs[t.topic]; s != nil && !s.closed {
+		if s := q.subs[t.topic]; s.live() {
 			out = append(out, q.ID)
 		}
 	}
@@ -614,6 +642,7 @@ func (t *simTopic) WatchPeers(ctx context.Context) (<-chan events.Event, error) 
 	first := s.peers == nil
 	if first {
 		s.peers = make(chan events.Event, 256)
+		s.ctx = ctx
 	}
 	ch := s.peers
 	if first {
@@ -623,7 +652,7 @@ func (t *simTopic) WatchPeers(ctx context.Context) (<-chan events.Event, error) 
 			if q == t.p || !w.linkedLocked(t.p.Name, n) {
 				continue
 			}
-			if qs := q.subs[t.topic]; qs != nil && !qs.closed {
+			if qs := q.subs[t.topic]; qs.live() {
 				w.addMsgLocked(&Msg{Kind: "join", Topic: t.topic, From: n, To: t.p.Name})
 				w.addMsgLocked(&Msg{Kind: "join", Topic: t.topic, From: t.p.Name, To: n})
 			}
@@ -633,16 +662,7 @@ func (t *simTopic) WatchPeers(ctx context.Context) (<-chan events.Event, error) 
 	go func() {
 		<-ctx.Done()
 		w.mu.Lock()
-		if !s.closed {
-			s.closed = true
-			close(ch)
-			if s.msgs != nil {
-				close(s.msgs)
-			}
-			if t.p.subs[t.topic] == s {
-				delete(t.p.subs, t.topic)
-			}
-		}
+		s.closeLocked(t.p, t.topic)
 		w.mu.Unlock()
 	}()
 	return ch, nil
